@@ -60,6 +60,8 @@ type Options struct {
 	TimerCost    int  // deviation cost of firing a timer while a thread could run (default 1)
 	NoPreemptCost bool // explore all interleavings without charging preemptions
 	Trace        bool // log every scheduling decision with x.Logf
+	DelayBounded bool // every non-default choice costs one deviation, also when the running thread cannot continue (delay bounding)
+	Sequential   bool // no exploration: always continue the running thread, else the lowest runnable id
 }
 
 // S is the scheduler of one execution.
@@ -284,9 +286,9 @@ func (s *S) reschedule(self *thread) {
 			return
 		}
 		c := 0
-		if n > 1 {
+		if n > 1 && !s.opt.Sequential {
 			cost := 0
-			if selfReady && !s.opt.NoPreemptCost {
+			if (selfReady || s.opt.DelayBounded) && !s.opt.NoPreemptCost {
 				cost = 1
 			}
 			c = s.x.ChooseCost(n, cost)
